@@ -4,17 +4,24 @@
 #pragma once
 
 #include "platform.h"
+#include <limits>
 
 #if GLM_ARCH & GLM_ARCH_SSE2_BIT
 
 GLM_FUNC_QUALIFIER glm_f32vec4 glm_vec1_sqrt_lowp(glm_f32vec4 x)
 {
-	return _mm_mul_ss(_mm_rsqrt_ss(x), x);
+	// x * rsqrt(x) is 0 * inf = NaN for x = 0 and inf * 0 = NaN for x = +inf: return x itself there
+	glm_f32vec4 const est0 = _mm_mul_ss(_mm_rsqrt_ss(x), x);
+	glm_f32vec4 const msk0 = _mm_or_ps(_mm_cmpeq_ps(x, _mm_setzero_ps()), _mm_cmpeq_ps(x, _mm_set1_ps(std::numeric_limits<float>::infinity())));
+	return _mm_or_ps(_mm_and_ps(msk0, x), _mm_andnot_ps(msk0, est0));
 }
 
 GLM_FUNC_QUALIFIER glm_f32vec4 glm_vec4_sqrt_lowp(glm_f32vec4 x)
 {
-	return _mm_mul_ps(_mm_rsqrt_ps(x), x);
+	// x * rsqrt(x) is 0 * inf = NaN for x = 0 and inf * 0 = NaN for x = +inf: return x itself there
+	glm_f32vec4 const est0 = _mm_mul_ps(_mm_rsqrt_ps(x), x);
+	glm_f32vec4 const msk0 = _mm_or_ps(_mm_cmpeq_ps(x, _mm_setzero_ps()), _mm_cmpeq_ps(x, _mm_set1_ps(std::numeric_limits<float>::infinity())));
+	return _mm_or_ps(_mm_and_ps(msk0, x), _mm_andnot_ps(msk0, est0));
 }
 
 #endif//GLM_ARCH & GLM_ARCH_SSE2_BIT
